@@ -31,7 +31,7 @@ Print Assumptions C11_all_off.
 (* Network.step as the model has it (read off network.py on every run, translator/facts.py): the six options default
    to off, and the three phases hand on exactly the options the model applies in them *)
 From SM.specs Require Import SourceFacts_spec.
-From SM.proofs Require Import SourceFacts.
+From SM.proofs Require Import SourceFactsStep.
 Theorem C11_options_default_off : options_default_off.
 Proof. exact options_default_off_proof. Qed.
 Print Assumptions C11_options_default_off.
